@@ -134,13 +134,20 @@ async fn handle_stream(
     // does not apply to it
     let forwarder = TcpForwarder::new(context.clone());
     let settings = context.settings.reverse_proxy.as_ref().unwrap();
-    let (mut server_source, mut server_sink) = forwarder
+    let (mut server_source, mut server_sink) = match forwarder
         .connect_to_peer(log_id.clone(), settings.server_address)
         .await
-        .map_err(|e| match e {
-            tunnel::ConnectionError::Io(e) => e,
-            _ => io::Error::new(ErrorKind::Other, format!("{}", e)),
-        })?;
+    {
+        Ok(x) => x,
+        Err(e) => {
+            // the client is waiting for an answer
+            let _ = respond.send_bad_response(http::StatusCode::BAD_GATEWAY, vec![]);
+            return Err(match e {
+                tunnel::ConnectionError::Io(e) => e,
+                _ => io::Error::new(ErrorKind::Other, format!("{}", e)),
+            });
+        }
+    };
 
     let mut request_headers = request.clone_request();
     let original_version = request_headers.version;
@@ -169,7 +176,10 @@ async fn handle_stream(
         "Sending translated request: {:?}",
         net_utils::scrub_request(&request_headers)
     );
-    server_sink.write_all(encoded).await?;
+    if let Err(e) = server_sink.write_all(encoded).await {
+        let _ = respond.send_bad_response(http::StatusCode::BAD_GATEWAY, vec![]);
+        return Err(e);
+    }
 
     let mut request_body = RequestBody {
         source: request.finalize(),
